@@ -280,10 +280,12 @@ def _owner(recv: ast.AST):
     return root, root + ".template"
 
 
-def _popped_index(fi, v, stack):
+def _popped_index(fi, v, stack, norm=None):
     """Which component of ``<stack>.pop()`` the expression ``v`` denotes: -1 = the popped entry itself, i = entry[i];
     'other' when v is not taken from the stack; None when the shape is not understood."""
     def is_pop(e):
+        if norm is not None and isinstance(e, ast.AST):
+            e = norm(e)
         return isinstance(e, ast.Call) and q.dotted(e.func) == stack + ".pop" and not e.args and not e.keywords
 
     if is_pop(v):
@@ -303,7 +305,7 @@ def _popped_index(fi, v, stack):
     if isinstance(v, ast.Name):
         src = single_assignment(fi.node, v.id)
         if src is not None:
-            return _popped_index(fi, src, stack)
+            return _popped_index(fi, src, stack, norm)
         for st in q.walk_body(fi.node):
             if isinstance(st, ast.Assign) and len(st.targets) == 1 and isinstance(st.targets[0], ast.Tuple) and is_pop(st.value):
                 names = [q.dotted(e) for e in st.targets[0].elts]
@@ -428,9 +430,9 @@ def rule_include_scope(ck):
     ok = False
     if len(rst) == 1 and stack is not None and idx is not None:
         val = wnorm(ex, rst[0].ast.value)
-        got = _popped_index(ex, val, stack)
+        got = _popped_index(ex, val, stack, lambda e_: wnorm(ex, e_))
         if got is None:
-            got = _popped_index(ex, rst[0].ast.value, stack)
+            got = _popped_index(ex, rst[0].ast.value, stack, lambda e_: wnorm(ex, e_))
         if got is None:
             raise AnalysisError("include exit: restored value not understood: %s" % q.unparse(rst[0].ast))
         ok = got == idx and ex.cfg.postdominates(rst[0], ex.cfg.entry)
@@ -598,6 +600,9 @@ def rule_default_escape(ck):
 
 
 def run(ck):
+    from ..x_valuewalk import guard_obligations
+
+    guard_obligations(ck, ['_parse', '_get_ancestors', '_generate_python', '_format_code', '_create_template'])
     ck.rule("C20.escape-before-append", "_Expression.generate: on every path that is neither raw nor autoescape-None the value variable is rebound to <current template's autoescape>(value) after its last other rebinding and before the append line")
     ck.rule("C20.raw-sites", "raw expression nodes are constructed only for the raw directive and (_Module) the module directive; .raw is written only by the constructor; raw defaults to False")
     ck.rule("C20.include-scope", "bodies of other templates are generated inside with writer.include(<owner template>); include() saves then installs; its exit restores the saved entry; nobody else writes current_template")
